@@ -1,5 +1,6 @@
 import Amgcl.Driver.Util
 import Amgcl.Model.CApi
+import Amgcl.Model.CApiParams
 import Amgcl.Model.Kernels
 /-! handlers for the model-expressible part of C20 (lib/amgcl.cpp): the iterator-range view and the handle
 life cycle.
@@ -13,6 +14,12 @@ life cycle.
   `pcreate | pset h | pdestroy h | acreate β p | aapply h | areport h | adestroy h | screate β p | ssolve h |
   smtx β h | sreport h | sdestroy h` with `p` a handle number or `null`; answer `ok <#live> <kinds of the live
   handles>` or `error <index of the offending call> <unknown|dead|kind>`.
+* `capi_params <call>*` — the CONTENT of parameter handles:
+  `new | seti p path int | setf p path q | sets p path text | json p K (path i|f|s value)^K | del p`
+  (`path` dotted, segments `[A-Za-z0-9_]+`; `int` within ±10^6; `q = m/2^k`, `k ≤ 6`, `|m| < 2^15`; `text` in
+  `[A-Za-z0-9_]+`; the paths of one file pairwise not ancestors of each other; `K ≤ 64`, at most 400 calls);
+  answer `ok` + per handle `dead` or the tree (`CApi.dump`).  `bad-input` for a call on a handle that does not
+  exist / is destroyed and for values outside the stated ranges.
 -/
 namespace Amgcl.Driver.CApi
 open Amgcl Amgcl.Driver Amgcl.CApi
@@ -64,6 +71,82 @@ def showErr : Err → String
   | .dead => "dead"
   | .kind => "kind"
 
+/-! ### capi_params -/
+
+def okChar (c : Char) : Bool := c.isAlphanum || c == '_'
+
+def parsePath (s : String) : Option (List String) :=
+  let segs := s.splitOn "."
+  if segs.all (fun g => !g.isEmpty && g.toList.all okChar) then some segs else none
+
+def pPath : P (List String) := do
+  let t ← tok
+  match parsePath t with
+  | some p => pure p
+  | none => fail
+
+/-- a value of the given type tag, as the text the setter stores -/
+def pValue (ty : String) : P String := do
+  match ty with
+  | "i" => do
+      let v ← pInt
+      if v < -1000000 ∨ v > 1000000 then fail else pure (toString v)
+  | "f" => do
+      let q ← pRat
+      match floatText q with
+      | some t => pure t
+      | none => fail
+  | "s" => do
+      let t ← tok
+      if !t.isEmpty && t.toList.all okChar then pure t else fail
+  | _ => fail
+
+def pEntry : P (List String × String) := do
+  let p ← pPath
+  let ty ← tok
+  let v ← pValue ty
+  pure (p, v)
+
+/-- `a` is `b` or an ancestor of `b` -/
+def isPrefix : List String → List String → Bool
+  | [], _ => true
+  | _ :: _, [] => false
+  | x :: xs, y :: ys => x == y && isPrefix xs ys
+
+/-- no path of a file is (an ancestor of) another one -/
+def fileOK (es : List (List String × String)) : Bool :=
+  let idx := (List.range es.length).zip es
+  idx.all (fun (i, e) => idx.all (fun (j, f) => i == j || !isPrefix e.1 f.1))
+
+def pPCall : P PCall := do
+  let t ← tok
+  match t with
+  | "new" => pure .create
+  | "del" => do let h ← pNat; pure (.destroy h)
+  | "seti" => do let h ← pNat; let p ← pPath; let v ← pValue "i"; pure (.write h (.set p v))
+  | "setf" => do let h ← pNat; let p ← pPath; let v ← pValue "f"; pure (.write h (.set p v))
+  | "sets" => do let h ← pNat; let p ← pPath; let v ← pValue "s"; pure (.write h (.set p v))
+  | "json" => do
+      let h ← pNat
+      let k ← pNat
+      if k > 64 then fail
+      let es ← pMany k pEntry
+      if !fileOK es then fail
+      pure (.write h (.file es))
+  | _ => fail
+
+def pPCalls : Nat → P (List PCall)
+  | 0 => fun s => match s with
+    | [] => some ([], [])
+    | _ => none
+  | f + 1 => fun s => match s with
+    | [] => some ([], [])
+    | _ => (do let c ← pPCall; let cs ← pPCalls f; pure (c :: cs) : P (List PCall)) s
+
+def showHandle : Option Params.PTree → List String
+  | none => ["dead"]
+  | some t => dump t
+
 def handle (op : String) (args : List String) : Option String :=
   match op with
   | "capi_view" => withArgs (do
@@ -88,6 +171,14 @@ def handle (op : String) (args : List String) : Option String :=
         | .ok st => let l := liveHandles st
                     joinSp ("ok" :: toString l.length :: l.map showKind)
         | .error (i, e) => joinSp ["error", toString i, showErr e]
+  | "capi_params" => withArgs (do
+        let cs ← pPCalls args.length
+        if cs.length > 400 then fail
+        pure cs) args
+      fun cs =>
+        match runCalls [] cs with
+        | none => badInput
+        | some st => joinSp ("ok" :: (st.map showHandle).flatten)
   | _ => none
 
 end Amgcl.Driver.CApi
